@@ -34,14 +34,27 @@ def check_pitch_trim(chk, MX):
     rng = chk.rng
     sd, ac, st, cs = gen_case(chk)
     kw = {}
-    if getattr(chk, "round", 0) % 4 in (1, 2):          # (round 0: wind and the default lift target; 1: still air, CL given; 2: wind, CL given; 3: neither)
+    rnd_ = getattr(chk, "round", 0)
+    if rnd_ % 4 in (1, 2):          # (round 0: wind and the default lift target; 1: still air, CL given; 2: wind, CL given; 3: neither)
         kw["CL"] = round(rng.uniform(0.2, 0.6), 3)
+    if rnd_ % 4 == 1 and (rnd_ // 4) % 2 == 0:
+        kw["CL"] = 0.0                                   # a zero-lift trim is a target like any other
+        chk.count("pitch_trim:CL=0")
+    pitch_control = "elevator"
+    if rnd_ % 4 == 3:
+        # a second pitch control on the tail (a tab mixed into the same surface): trimming with it leaves the elevator where it was
+        ac = copy.deepcopy(ac)
+        ac["controls"]["tab"] = {"is_symmetric": True}
+        ac["wings"]["h_stab"]["control_surface"]["control_mixing"]["tab"] = 0.5
+        cs = dict(cs, tab=0.0)
+        kw["pitch_control"] = pitch_control = "tab"
+        chk.count("pitch_trim:other-control")
     if rng.random() < 0.3:
         kw["Cm"] = round(rng.uniform(-0.02, 0.02), 4)
     if rng.random() < 0.3:
         kw["relaxation"] = round(rng.uniform(0.6, 1.0), 2)
     sc = gen.build_scene(MX, sd, [("a", ac, st, cs)])
-    if rng.random() < 0.3:
+    if rng.random() < 0.3 and kw.get("CL") != 0.0:
         # one of the two targets is already met at the start (lift balanced, moment not): both conditions must still hold on return
         try:
             kw["CL"] = float(sc.solve_forces(dimensional=False, non_dimensional=True)["a"]["total"]["CL"])
@@ -54,14 +67,19 @@ def check_pitch_trim(chk, MX):
     rho = float(sc._get_density(a.p_bar))
     CW = a.W / (0.5 * rho * V * V * a.S_w)
     try:
-        ret = sc.pitch_trim(set_trim_state=False, **kw)["a"]
+        set_it = pitch_control != "elevator"
+        ret = sc.pitch_trim(set_trim_state=set_it, **kw)["a"]
+        if set_it:
+            left = api.aircraft_state(sc, "a")["controls"]
+            if abs(left["elevator"] - cs["elevator"]) > 1e-12 or abs(left[pitch_control] - float(ret[pitch_control])) > 1e-9:
+                return "pitch_trim:set-state-controls", dict(controls_left=left, controls_given=cs, returned=ret, scene=sd, aircraft=ac, state=st, kwargs=kw)
     except Exception as e:
         if type(e).__name__ in ("MaxIterationError", "SolverNotConvergedError"):
             chk.count("not-trimmable=" + type(e).__name__)        # a raised error is not a returned trim: nothing to check
             return None, None
         return "pitch_trim:raises:" + type(e).__name__, dict(error=repr(e), scene=sd, aircraft=ac, state=st, controls=cs, kwargs=kw)
     st2 = dict(st, alpha=float(ret["alpha"]))
-    cs2 = dict(cs, elevator=float(ret["elevator"]))
+    cs2 = dict(cs, **{pitch_control: float(ret[pitch_control])})
     _, tot = totals_at(MX, sd, ac, st2, cs2)
     CLt, Cmt = kw.get("CL", CW), kw.get("Cm", 0.0)
     if abs(tot["CL"] - CLt) > TOL or abs(tot["Cm"] - Cmt) > TOL:
